@@ -241,6 +241,16 @@ struct C13 : Profile {
     // reference layout only when every line is short enough to be delivered whole
     bool shortok = true; { size_t b = 0; for (size_t i = 0; i <= shortl.size(); ++i) if (i == shortl.size() || shortl[i] == '\n') { if (i - b > 900) shortok = false; b = i + 1; } }
     if (shortok) plan["ref_text"] = enc(shortl);
+    if (kind == 3 && program && g.chance(0.4)) {
+      // line-length lattice: the first line ends exactly around a multiple of the readers' chunk size, so that the line terminator (LF, or the CR and the LF of a CRLF pair)
+      // meets every position relative to a chunk edge
+      Rng er(subseed(vseed, "C13/edge", runno));
+      size_t L = (size_t)(er.pick(std::vector<long>{1022, 1023, 2044, 2045, 2046, 3066, 3069}) + er.range(-4, 4));
+      std::string line; while (line.size() + 14 < L) line += std::string("v") + (char)('a' + er.below(4)) + " = " + gen_digits(er, er.range(1, 6)).insert(0, "1") + "; ";
+      while (line.size() < L) line.push_back(' ');
+      text = line + "\n" + shortl; shortok = false; plan.erase("ref_text");
+      plan["text"] = enc(text); plan["edge_line"] = (long)L;
+    }
     if (kind == 3) {
       static const char* rd[] = {"string", "file", "include"};
       std::string t = rd[r.below(program ? 3 : 2)];
